@@ -18,6 +18,8 @@ CONSTANTS Objs,        \* object names (strings)
           Vias,        \* issuers enabled: subset of {"obj","refl","sloppy","strict","go"}
           Recvs,       \* receivers for Reflect.get / Reflect.set: subset of Objs \cup {"prim"}
           InitProto,   \* [Objs -> Objs \cup {"null"}]
+          InitProp,    \* the property every key starts with (None; or a fixed data property: exotic objects whose index keys exist
+                       \* from the start, e.g. the characters of a String object) -- single-key configurations only
           ProtoOps,    \* BOOLEAN: enable SetProto
           Ops          \* enabled operations (subset of AllOps)
 
@@ -30,7 +32,10 @@ IsIdx(k) == k \in {"i0", "i1", "i2"}
 IsSym(k) == k \in {"y", "z"}
 IdxRank(k) == CASE k = "i0" -> 0 [] k = "i1" -> 1 [] k = "i2" -> 2 [] OTHER -> 9
 
-Init == /\ objs = [o \in Objs |-> [props |-> [k \in Keys |-> None], order |-> <<>>, ext |-> "T", proto |-> InitProto[o]]]
+FrozenV1 == Data("v1", "F", "T", "F")
+Init == /\ objs = [o \in Objs |-> [props |-> [k \in Keys |-> InitProp],
+                                    order |-> IF InitProp = None THEN <<>> ELSE <<CHOOSE k \in Keys : TRUE>>,
+                                    ext |-> "T", proto |-> InitProto[o]]]
         /\ act = [op |-> "init"]
 
 SelectSeq2(s, T(_)) == SelectSeq(s, T)
